@@ -208,3 +208,73 @@ def sync_total(vc):
     vc.prove("resolve_bytes_agrees_with_from_bits", SyncPatterns.resolve_bytes(raw) is m)
     vc.prove("frame_argument_unchanged", vc.eq(x, keep))
 gps_info.budget_s = 150
+
+
+@contract("Element.enum_history_bounded", "okdmr.dmrlib.etsi.layer2.elements:*", ["C19", "C03"], bounded=True,
+          note="state kept ON enumeration members (process-wide singletons) is invisible to the symbolic model of the Enum call (which asks the class about every value at once): "
+               "natively, for every pair (v1, v2) of values of an element enumeration (w <= 6: all pairs; wider: every v1 against the defined members and range boundaries), "
+               "decoding v1 first must not change what decoding / re-encoding v2 gives in a fresh process (forked)")
+def enum_history(vc, element, w):
+    if vc.mode != "native":
+        return
+    import os
+    import pickle
+
+    cls = ELEMENTS[element]
+
+    def view(v):
+        from bitarray.util import int2ba
+
+        try:
+            m = cls.from_bits(int2ba(v, length=w)) if hasattr(cls, "from_bits") else cls(v)
+        except Exception as e:
+            return ("raises", type(e).__name__)
+        try:
+            return (m.name, m.as_bits().to01() if hasattr(m, "as_bits") else m.value)
+        except Exception as e:
+            return (m.name, "raises " + type(e).__name__)
+
+    second = list(range(1 << w)) if w <= 6 else sorted({m.value for m in cls if m.value < (1 << w)} | {0, 1, (1 << w) - 1, (1 << (w - 1))})
+    # fresh answers: computed in a forked child, so that this process has not asked the class anything yet
+    r, wfd = os.pipe()
+    pid = os.fork()
+    if pid == 0:
+        os.close(r)
+        out = {}
+        for v2 in second:
+            r2, w2 = os.pipe()
+            p2 = os.fork()
+            if p2 == 0:
+                os.write(w2, pickle.dumps(view(v2)))
+                os._exit(0)
+            os.close(w2)
+            out[v2] = pickle.loads(os.read(r2, 65536))
+            os.close(r2)
+            os.waitpid(p2, 0)
+        os.write(wfd, pickle.dumps(out))
+        os._exit(0)
+    os.close(wfd)
+    buf = b""
+    while True:
+        ch = os.read(r, 1 << 20)
+        if not ch:
+            break
+        buf += ch
+    os.close(r)
+    os.waitpid(pid, 0)
+    fresh = pickle.loads(buf)
+    bad = []
+    for v1 in range(1 << w):
+        view(v1)
+        for v2 in second:
+            got = view(v2)
+            if got != fresh[v2]:
+                bad.append(dict(first=v1, then=v2, got=got, fresh=fresh[v2]))
+                break
+        if bad:
+            break
+    vc.prove("decoding_one_value_does_not_change_what_another_decodes_to", not bad, note=bad[:1])
+
+
+enum_history.shapes = lambda tier: [s for s in _enum_shapes(tier) if s["w"] <= 8]
+enum_history.native_all = True
